@@ -28,9 +28,11 @@ import (
 	"sort"
 	"strings"
 	"sync"
+	"sync/atomic"
 	"time"
 
 	"ergo.services/ergo/gen"
+	"ergo.services/ergo/lib"
 	"ergo.services/ergo/net/edf"
 	"ergo.services/ergo/net/proto"
 )
@@ -589,9 +591,61 @@ func c12Directed(c *Ctx) {
 	}
 }
 
+// c12RequestRace: a synchronous request whose requester is held (yield point proto:waitResult)
+// between sending the request and waiting for the reply until the reply has come back and been
+// routed. The reply must still reach the requester (was: thrown away by the non-blocking send on an
+// unbuffered channel; the request then fails with a time-out although the remote side executed it).
+func c12RequestRace(c *Ctx) {
+	r := c.R
+	rng := c.Rng.Fork()
+	p, err := w5NewPair(rng, w5Opts{Pool: 1, RelayMode: 4, ImportantA: true, ImportantB: true})
+	if err != nil {
+		r.Disagree("c12-pair", err.Error(), nil)
+		return
+	}
+	defer p.Close()
+	var held int32
+	lib.VerifHandler = func(obj any, label string) {
+		if label != "proto:waitResult" {
+			return
+		}
+		atomic.AddInt32(&held, 1)
+		// wait until the remote core has executed the request, then give the reply time to travel back
+		for i := 0; i < 4000 && p.B.core.Count() == 0; i++ {
+			time.Sleep(250 * time.Microsecond)
+		}
+		time.Sleep(30 * time.Millisecond)
+	}
+	defer func() { lib.VerifHandler = nil }()
+	from := gen.PID{Node: "a@w5", ID: 31337, Creation: 1001}
+	to := gen.PID{Node: "b@w5", ID: 6, Creation: 2002} // remote result: ErrProcessTerminated
+	t0 := time.Now()
+	got := p.A.conn.MonitorPID(from, to)
+	d := time.Since(t0)
+	lib.VerifHandler = nil
+	r.Case("E|request-race", true)
+	r.Count("E:request-race")
+	cs := map[string]interface{}{"directed": "MonitorPID with the requester parked at proto:waitResult until the reply is back", "returned": errText(got), "took_ms": d.Milliseconds()}
+	if atomic.LoadInt32(&held) == 0 {
+		r.Disagree("request-race-hook", "yield point proto:waitResult was not reached", cs)
+		return
+	}
+	if errText(got) != errText(w5Script(to.ID)) {
+		sig := "C12-request-result"
+		if errors.Is(got, gen.ErrTimeout) {
+			sig = "C12-request-timeout"
+		}
+		r.Violation(sig, fmt.Sprintf("MonitorPID returned %s after %v; the remote core executed it once and answered %s", errText(got), d, errText(w5Script(to.ID))), cs)
+	}
+	if n := p.B.core.Count(); n != 1 {
+		r.Violation("C12-delivery", fmt.Sprintf("request routed %d times", n), cs)
+	}
+}
+
 func c12EndToEnd(c *Ctx) {
 	r := c.R
 	c12Directed(c)
+	c12RequestRace(c)
 	nsc := c.N(28, 400)
 	for si := 0; si < nsc; si++ {
 		if r.Failed() && len(r.Violations)+len(r.Disagreements) > 6 {
